@@ -286,8 +286,10 @@ def read_env(src, expr, skip_envs=(), tolerance=0, mode=MODE_NON_MATH):
     contents = []
     while src.hasNext():
         if src.peek().category == TC.Escape:
+            # only the name group of a closing `\end` matters here; what
+            # follows it belongs to the surrounding content
             name, args = make_read_peek(read_command)(
-                src, skip=1, tolerance=tolerance, mode=mode)
+                src, 1, 0, skip=1, tolerance=tolerance, mode=mode)
             if name == 'end':
                 break
         contents.append(read_expr(src, skip_envs=skip_envs, tolerance=tolerance, mode=mode))
